@@ -251,9 +251,18 @@ impl SpillPoolSink {
 
         // Append the batch
         if let Some(ref mut writer) = file_shared.writer {
-            writer.append_batch(batch)?;
             // make sure we flush the writer for readers
-            writer.flush()?;
+            let result = writer.append_batch(batch).and_then(|_| writer.flush());
+            if let Err(e) = result {
+                // This file has already been removed from `open_write_files` and is not
+                // put back, so nobody will ever write to it (or finalize it) again.
+                // Seal it so that a reader that has caught up with the successfully
+                // written batches moves on instead of waiting forever.
+                file_shared.writer = None;
+                file_shared.writer_finished = true;
+                file_shared.wake();
+                return Err(e);
+            }
             file_shared.batches_written += 1;
             file_shared.estimated_size += batch_size;
         }
@@ -265,13 +274,17 @@ impl SpillPoolSink {
 
         if max_file_size_reached {
             // Finish the IPC writer
-            if let Some(mut writer) = file_shared.writer.take() {
-                writer.finish()?;
-            }
-            // Mark as finished so readers know not to wait for more data
+            let finish_result = file_shared
+                .writer
+                .take()
+                .map(|mut writer| writer.finish())
+                .transpose();
+            // Mark as finished so readers know not to wait for more data. This must
+            // happen even if `finish` failed: the file is not re-queued for writing.
             file_shared.writer_finished = true;
             // Wake reader waiting on this file (it's now finished)
             file_shared.wake();
+            finish_result?;
 
             // Don't place `write_file` back in the `open_write_files` queue so we don't
             // try writing to it again
